@@ -200,11 +200,14 @@ Theorem C15_closed_connection_reports_nothing : forall secret w slot st n other 
 Proof. exact closed_reports_nothing. Qed.
 Print Assumptions C15_closed_connection_reports_nothing.
 
-(* Census, for every sequence of server events (authentications, further - also concurrent - auth
-   requests on an authenticated connection, reports at any site, client closes, handler returns, API
-   requests; a further auth request changes nothing: last clause): GET /online lists for every user exactly the
-   connections whose handler has not yet returned; that is never less than the user's open
-   connections and, once the handlers of all closed connections have returned, exactly them. *)
+(* Census, for every sequence of server events (authentications in one step or in the auth handler's
+   atomic steps - enter Authenticate / store the flag or reject / announce - with the connection dying
+   at any point in between, further - also concurrent - auth requests on an authenticated connection,
+   reports at any site, client closes, handler returns, API requests; a further auth request changes
+   nothing: last clause): GET /online lists for every user exactly the announced connections whose
+   handleClient has not yet reported offline; that is never less than the user's live authenticated
+   (open and announced: nopen) connections and, once the handlers of all closed connections have
+   returned, exactly them. *)
 Theorem C15_census : forall secret evs i,
   (Z.of_nat (List.length evs) < P63)%Z ->
   let w := wrun secret init_world evs in
@@ -231,14 +234,16 @@ Proof. exact auth_unlocked_refuted. Qed.
 Print Assumptions C15_auth_not_atomic_refuted.
 
 (* Kick disconnects, end to end: in any reachable world, if a kick of a user is pending, that
-   user's next report - at whichever site, on whichever of its open connections - is refused,
+   user's next report - at whichever site, on whichever of its open connections (c_ann: whose auth
+   handler has announced it and returned - a connection still inside its auth handler is covered by
+   C15_notifications_paired: its handleClient waits for the handler) - is refused,
    that connection is closed and reports nothing any more, its handler returns, and then the user
    has one open connection less, GET /online shows one less (no entry at zero), the kick is used
    up, no byte was added and every other connection is as it was. *)
 Theorem C15_kick_disconnects : forall secret evs slot c st n other,
   (Z.of_nat (List.length evs) + 2 < P63)%Z ->
   let w := wrun secret init_world evs in
-  nth_error (conns w) slot = Some c -> c_open c = true ->
+  nth_error (conns w) slot = Some c -> c_open c = true -> c_ann c = true ->
   mem (c_id c) (kick (logger w)) = true ->
   (is_tcp st = true -> other = false) ->
   let i := c_id c in
@@ -255,3 +260,38 @@ Theorem C15_kick_disconnects : forall secret evs slot c st n other,
   (forall j, j <> slot -> nth_error (conns w2) j = nth_error (conns w) j).
 Proof. exact kick_disconnects. Qed.
 Print Assumptions C15_kick_disconnects.
+
+(* Pairing of the notifications (what C15_online_exact assumes of core/server as `paired`), for every
+   sequence of server events, the auth handler taken in its atomic steps and the connection dying at
+   any point of them (closed while the Authenticator is still deciding, between the store of the flag
+   and the announcement, after it): the stats object has seen exactly the recorded LogOnlineState calls;
+   for every connection these are nothing, or one online, or one online followed by one offline - never
+   an offline without or before the online of that connection, never two of a kind; per user no prefix
+   has more offline than online calls, and #online - #offline is the number of announced connections
+   whose handleClient has not reported offline yet (never negative). *)
+Theorem C15_notifications_paired : forall secret evs,
+  let w := wrun secret init_world evs in
+  let tr := wtrace secret init_world evs in
+  online (logger w) = online (fst (run init_state (note_ops tr))) /\
+  (forall k, conn_notes k tr = [] \/
+             exists i, conn_notes k tr = [(i, true)] \/ conn_notes k tr = [(i, true); (i, false)]) /\
+  (forall i, paired i (note_ops tr)) /\
+  (forall i, balance i (note_ops tr) = nlisted i (conns w) /\ (0 <= nlisted i (conns w))%Z).
+Proof. exact notifications_paired. Qed.
+Print Assumptions C15_notifications_paired.
+
+(* That rests on two facts of the code: handleClient continues only when no request handler of the
+   connection is in flight (http3 handleConn waits for them), and the auth handler announces
+   unconditionally once it has stored the flag.  In the variant where the handler returns without
+   announcing a client that went away while the Authenticator was deciding - after the store - the
+   connection is reported offline without ever having been reported online, and the decrement comes
+   out of the user's other, live connection: one live authenticated connection, no entry in the listing. *)
+Theorem C15_unannounced_return_refuted : forall secret,
+  let w0 := wrun secret init_world [EAuth 0%N; EAuthBegin 0%N; EClientClose 1; EAuthDecide 1 true] in
+  let w1 := return_unannounced w0 1 in
+  let w2 := fst (wstep secret w1 (EHandlerReturn 1)) in
+  wnote w1 (EHandlerReturn 1) = [(1%nat, (0%N, false))] /\
+  conn_notes 1 (wtrace secret init_world [EAuth 0%N; EAuthBegin 0%N; EClientClose 1; EAuthDecide 1 true]) = [] /\
+  nopen 0%N (conns w2) = 1%Z /\ get 0%N (online (logger w2)) = None.
+Proof. exact unannounced_return_refuted. Qed.
+Print Assumptions C15_unannounced_return_refuted.
